@@ -175,3 +175,35 @@ package decoders
 //@ loop 0 step [headers-forgotten-at-new-pass] imp(d.passNum != iter(d.passNum), d.Header != iter(d.Header) && len(d.Header) == 0)
 //@ at call d.readLine assert [every-line-with-the-current-headers] arg(data) == result_of(d.scanner.Text, 0) && arg(commonHeader) == d.Header
 //@ modifies d.ammoNum, d.passNum, d.Header, elems(d.Header), d.line, d.scanner, scanErr[d.scanner], scanText[d.scanner]
+
+// ---------------------------------------------------------------- construction: the decoder of the configured format over the given file
+
+//@ func NewDecoder
+//@ props C07 C08 C14
+//@ ensures [bad-config-headers-are-an-error] imp(result_of(util.DecodeHTTPConfigHeaders, 1) != nil, err == result_of(util.DecodeHTTPConfigHeaders, 1) && d == nil)
+//@ ensures [unknown-format-is-an-error] imp(result_of(util.DecodeHTTPConfigHeaders, 1) == nil && conf.Decoder != config.DecoderJSONLine && conf.Decoder != config.DecoderRaw && conf.Decoder != config.DecoderURI && conf.Decoder != config.DecoderURIPost, err == ErrUnknown)
+//@ ensures [uri] imp(result_of(util.DecodeHTTPConfigHeaders, 1) == nil && conf.Decoder == config.DecoderURI, err == nil && d == box(result_of(newURIDecoder, 0)))
+//@ ensures [uripost] imp(result_of(util.DecodeHTTPConfigHeaders, 1) == nil && conf.Decoder == config.DecoderURIPost, err == nil && d == box(result_of(newURIPostDecoder, 0)))
+//@ ensures [raw] imp(result_of(util.DecodeHTTPConfigHeaders, 1) == nil && conf.Decoder == config.DecoderRaw, err == nil && d == box(result_of(newRawDecoder, 0)))
+//@ ensures [jsonline] imp(result_of(util.DecodeHTTPConfigHeaders, 1) == nil && conf.Decoder == config.DecoderJSONLine, calls(newJsonlineDecoder) == 1 && err == result_of(newJsonlineDecoder, 1))
+//@ at call util.DecodeHTTPConfigHeaders assert [configured-headers] arg(headers) == conf.Headers
+//@ at call newURIDecoder assert [file-config-headers] arg(file) == file0 && arg(cfg) == conf && arg(decodedConfigHeaders) == result_of(util.DecodeHTTPConfigHeaders, 0)
+//@ at call newURIPostDecoder assert [file-config-headers] arg(file) == file0 && arg(cfg) == conf && arg(decodedConfigHeaders) == result_of(util.DecodeHTTPConfigHeaders, 0)
+//@ at call newRawDecoder assert [file-config-headers] arg(file) == file0 && arg(cfg) == conf && arg(decodedConfigHeaders) == result_of(util.DecodeHTTPConfigHeaders, 0)
+//@ at call newJsonlineDecoder assert [file-config-headers] arg(file) == file0 && arg(cfg) == conf && arg(decodedConfigHeaders) == result_of(util.DecodeHTTPConfigHeaders, 0)
+
+// A new decoder starts at entry 0 of pass 0 with no in-file headers remembered.
+//@ func newURIDecoder
+//@ props C07 C08
+//@ ensures [starts-from-nothing] fresh(result) && result.file == file && result.config == cfg && result.decodedConfigHeaders == decodedConfigHeaders && result.ammoNum == 0 && result.passNum == 0 && result.line == 0 && result.Header != nil && len(result.Header) == 0 && result.pool != nil
+//@ at call bufio.NewScanner assert [reads-the-file] arg(a0) == box(file)
+
+//@ func newURIPostDecoder
+//@ props C07 C08
+//@ ensures [starts-from-nothing] fresh(result) && result.file == file && result.config == cfg && result.decodedConfigHeaders == decodedConfigHeaders && result.ammoNum == 0 && result.passNum == 0 && result.line == 0 && result.header != nil && len(result.header) == 0 && result.pool != nil
+//@ at call bufio.NewReader assert [reads-the-file] arg(a0) == box(file)
+
+//@ func newRawDecoder
+//@ props C07 C08
+//@ ensures [starts-from-nothing] fresh(result) && result.file == file && result.config == cfg && result.decodedConfigHeaders == decodedConfigHeaders && result.ammoNum == 0 && result.passNum == 0 && result.pool != nil
+//@ at call bufio.NewReader assert [reads-the-file] arg(a0) == box(file)
